@@ -115,6 +115,7 @@ static int ref_cwid(unsigned c, int pos)
 
 static char cfg[64];
 
+static unsigned long n_cases;
 static void check_line(const int *idx, int n0)
 {
 	char s[MAXL * 4 + 8];
@@ -130,6 +131,9 @@ static void check_line(const int *idx, int n0)
 	cp[n0] = '\n';
 	s[len++] = '\n';
 	s[len] = '\0';
+	nv_case_str = s;
+	if ((++n_cases & 0xfff) == 0)
+		nv_guard(120, "c17-hang", "a block of 4096 lines, cfg=%s", cfg);
 	pos = ren_position(s);
 #define BAD(slug, what, ...) do { nv_viol(slug, "kind=line s=\"%s\" cfg=%s " what, nv_esc(s, len), cfg, __VA_ARGS__); free(pos); return; } while (0)
 	/* visual order: sort by column; ties can only involve zero-width characters, which come first */
@@ -270,6 +274,7 @@ out:
 int main(int argc, char **argv)
 {
 	nv_init(argc, argv);
+	nv_crash_guard("c17-crash");
 	dir_init();
 	build_bitmaps();
 	part_a();
